@@ -270,6 +270,7 @@ type vf18Env struct {
 	node    *vfNode
 	conR    *ConsensusManager
 	dead    bool
+	direct  bool // state-machine probe goes straight to the commit phase
 	blk     *types.Block
 	parts   *types.PartSet
 	chainID string
@@ -794,8 +795,28 @@ func (e *vf18Env) advMsg(r *vfRand) (byte, []byte, string) {
 				v.ValidatorIndex = uint32(r.Intn(5))
 			}
 		}
+		tag = "adv-vote"
+		if v != nil && r.Chance(35) {
+			// a Byzantine VALIDATOR: the vote is correctly signed with a validator's key, for the node's
+			// own height and a round it is in or about to enter - only its content is adversarial
+			cs := e.node.cs
+			w := 1 + r.Intn(3)
+			if vi, okv := vfValIndex(cs, e.net.addrs[w]); okv {
+				sv := &kproto.Vote{Type: kproto.SignedMsgType(r.Pick(int(kproto.PrevoteType), int(kproto.PrecommitType), int(kproto.PrecommitType))),
+					Height: cs.Height, Round: []uint32{cs.Round, cs.Round, cs.Round, cs.Round + 1, rd}[r.Intn(5)], BlockID: vf18NormBlockID(e.advBlockID(r)),
+					Timestamp: time.Unix(1700000000+int64(r.Intn(1000)), 0), ValidatorAddress: e.net.addrs[w].Bytes(), ValidatorIndex: vi}
+				signed := false
+				func() {
+					defer func() { _ = recover() }()
+					signed = types.NewDefaultPrivValidator(e.net.keys[w]).SignVote(e.chainID, sv) == nil
+				}()
+				if signed {
+					v, tag = sv, "adv-vote-signed"
+				}
+			}
+		}
 		pb.Sum = &kcons.Message_Vote{Vote: &kcons.Vote{Vote: v}}
-		ch, tag = VoteChannel, "adv-vote"
+		ch = VoteChannel
 	case 6:
 		pb.Sum = &kcons.Message_HasVote{HasVote: &kcons.HasVote{Height: h, Round: rd, Type: vf18AdvType(r), Index: uint32(vf18Int(r))}}
 		tag = "adv-hasvote"
@@ -963,8 +984,9 @@ func (e *vf18Env) smProbe(commit bool) {
 	ok := e.guard("state-machine-after-peer-message/"+ch+"/"+kind, detail, func() {
 		e.net.drain()
 		H := cs.Height
-		// A. two round changes by timeouts
-		for rc := 0; rc < 2 && cs.Height == H; rc++ {
+		// A. two round changes by timeouts (skipped, with B, by a direct probe: the commit then happens in
+		// the round the adversarial messages were aimed at)
+		for rc := 0; rc < 2 && cs.Height == H && !e.direct; rc++ {
 			r := cs.Round
 			phase = fmt.Sprintf("timeouts-round-%d", r)
 			for k := 0; k < 3 && cs.Step < cstypes.RoundStepPrevote; k++ {
@@ -979,7 +1001,7 @@ func (e *vf18Env) smProbe(commit bool) {
 			}
 		}
 		// B. round skip on +2/3 any prevotes of a later round
-		if cs.Height == H {
+		if cs.Height == H && !e.direct {
 			r := cs.Round
 			phase = fmt.Sprintf("round-skip-to-%d", r+2)
 			e.smVotes(all, H, r+2, kproto.PrevoteType, types.BlockID{})
@@ -1115,6 +1137,78 @@ func (e *vf18Env) f18Probe() {
 	runtime.GC()
 }
 
+// vf18NormBlockID: the proto form types.BlockID.ToProto() produces for what the node decodes from b
+// (32-byte hashes, zero-filled when absent): a signature the node can verify must be over this form.
+func vf18NormBlockID(b kproto.BlockID) kproto.BlockID {
+	if len(b.Hash) == 0 {
+		b.Hash = make([]byte, 32)
+	}
+	if len(b.PartSetHeader.Hash) == 0 {
+		b.PartSetHeader.Hash = make([]byte, 32)
+	}
+	return b
+}
+
+// byzFinale: a Byzantine VALIDATOR's last word before the node commits. One or two correctly signed
+// votes for the node's current height and round whose block id is decodable but odd (hash without
+// parts header, parts header without hash, zero total, another block, nil), sent through Receive;
+// the direct probe then commits a block in exactly that round, so whatever the vote sets kept of
+// them is folded into the commit (MakeCommit), the last-commit of the next height and its gossip.
+func (e *vf18Env) byzFinale(r *vfRand, peer *vf18Peer) {
+	cs := e.node.cs
+	id := e.blockID()
+	full := kproto.BlockID{Hash: id.Hash.Bytes(), PartSetHeader: kproto.PartSetHeader{Total: id.PartsHeader.Total, Hash: id.PartsHeader.Hash.Bytes()}}
+	for k := 1 + r.Intn(2); k > 0; k-- {
+		b := full
+		switch r.Intn(7) {
+		case 0, 1:
+			b.Hash = nil // parts header without a block hash
+		case 2:
+			b.PartSetHeader = kproto.PartSetHeader{} // block hash without a parts header
+		case 3:
+			b.PartSetHeader.Total = 0
+		case 4:
+			b.Hash = r.Bytes(32)
+		case 5:
+			b = kproto.BlockID{}
+		default:
+			b.PartSetHeader.Hash = r.Bytes(32)
+		}
+		w := 1 + r.Intn(3)
+		vi, okv := vfValIndex(cs, e.net.addrs[w])
+		if !okv {
+			continue
+		}
+		sv := &kproto.Vote{Type: kproto.SignedMsgType(r.Pick(int(kproto.PrevoteType), int(kproto.PrecommitType), int(kproto.PrecommitType))),
+			Height: cs.Height, Round: cs.Round, BlockID: vf18NormBlockID(b), Timestamp: time.Unix(1700000000+int64(r.Intn(1000)), 0),
+			ValidatorAddress: e.net.addrs[w].Bytes(), ValidatorIndex: vi}
+		signed := false
+		func() {
+			defer func() { _ = recover() }()
+			signed = types.NewDefaultPrivValidator(e.net.keys[w]).SignVote(e.chainID, sv) == nil
+		}()
+		if !signed {
+			continue
+		}
+		bz, err := proto.Marshal(&kcons.Message{Sum: &kcons.Message_Vote{Vote: &kcons.Vote{Vote: sv}}})
+		if err != nil {
+			continue
+		}
+		e.receive(VoteChannel, peer, bz, "byz-validator")
+		e.o.Stat("byz-finale/vote")
+	}
+	if e.dead {
+		return
+	}
+	e.direct = true
+	e.smProbe(true)
+	e.direct = false
+	if !e.dead {
+		e.gossip(peer, "byz-finale")
+	}
+	e.o.Stat("byz-finale/run")
+}
+
 func TestVerifC18Receive(t *testing.T) {
 	o := vfOpen()
 	defer o.Close()
@@ -1224,8 +1318,16 @@ func TestVerifC18Receive(t *testing.T) {
 				valid = e.validMsgs(r)
 			}
 		}
+		if withState && !e.dead && r.Chance(35) {
+			e.byzFinale(r, peer)
+		}
 		if withState && !e.dead {
-			e.smProbe(r.Chance(60))
+			e.direct = r.Chance(40)
+			if e.direct {
+				o.Stat("sm-probes/direct")
+			}
+			e.smProbe(e.direct || r.Chance(60))
+			e.direct = false
 		}
 		if withState && !e.dead {
 			e.gossip(peer, "end-of-case")
